@@ -1,12 +1,12 @@
 CONSTANT Docs = {1, 2}
 CONSTANT Names <- N1
 CONSTANT Contents = {1, 2}
-CONSTANT MaxSteps = 3
+CONSTANT MaxSteps = 4
 CONSTANT Modes = {FALSE, TRUE}
 CONSTANT Eccvs = {FALSE, TRUE}
 CONSTANT Kinds = {"put", "push", "del"}
 CONSTANT Brackets = TRUE
-CONSTANT MaxInner = 1
+CONSTANT MaxInner = 2
 CONSTANT Shapes <- AllShapes
 SPECIFICATION Spec
 VIEW view
